@@ -117,6 +117,8 @@ type reqState struct {
 
 	sent        int
 	abortedAt   int // sim step of the abort (-1)
+	ioBrokenAt  int // step at which reads and writes started to fail (-1)
+	ctxCancelAt int // step at which the request context was cancelled (-1)
 	abortInfo   string
 	panicVal    any
 	panicStack  string
@@ -239,7 +241,7 @@ func (r *reqState) expectedReq(i int) proto.Message {
 }
 
 func (r *reqState) boundPathVar() string {
-	if r.method.httpPath == nil || r.spec.Route == "implicit" {
+	if r.method.httpPath == nil || r.spec.Route == "implicit" || r.method.Key == "chat" && r.spec.Proto == "http" {
 		return ""
 	}
 	switch r.method.Key {
@@ -294,7 +296,7 @@ func (r *reqState) encode() {
 			h.Set("Grpc-Timeout", sp.Timeout)
 		}
 		for i := range sp.Msgs {
-			w = wire.GRPCFrame(w, marshalMsg(sp.Codec, r.clientMsg(i)), sp.Compress)
+			w = wire.GRPCFrame(w, marshalMsg(sp.Codec, r.clientMsg(i)), sp.Compress && !sp.Msgs[i].Plain)
 			r.bounds = append(r.bounds, len(w))
 		}
 		if sp.Proto == "grpcwebtext" {
@@ -314,7 +316,7 @@ func (r *reqState) encode() {
 		if sp.ID%2 == 0 {
 			major, minor = 1, 1
 		}
-		annotated := r.method.httpPath != nil && sp.Route != "implicit"
+		annotated := r.method.httpPath != nil && sp.Route != "implicit" && r.method.Key != "chat" // Chat's annotation is websocket-only
 		if annotated {
 			path = r.method.httpPath(r.boundPathVar())
 			if r.method.httpVerb != "" {
@@ -524,7 +526,26 @@ func (r *reqState) faultTask(armStep int) {
 	switch r.spec.Fault.Kind {
 	case "abort":
 		r.sim.Count(cAbort)
-		r.q.clientAbort()
+		step := r.sim.StepNo()
+		switch r.sim.Draw(3) {
+		case 0: // both at once
+			r.q.clientAbort()
+			r.ioBrokenAt, r.ctxCancelAt = step, step
+		case 1: // the body and the writes fail first, the context is cancelled a few steps later
+			r.q.clientBreakIO()
+			r.ioBrokenAt = step
+			r.sim.Note("abort: i/o broken, context still live")
+			r.fSlot.Yield("f.abort.cancel", core.Always, opFault)
+			r.q.cancel()
+			r.ctxCancelAt = r.sim.StepNo()
+		case 2: // the other way round
+			r.q.cancel()
+			r.ctxCancelAt = step
+			r.sim.Note("abort: context cancelled, i/o still up")
+			r.fSlot.Yield("f.abort.io", core.Always, opFault)
+			r.q.clientBreakIO()
+			r.ioBrokenAt = r.sim.StepNo()
+		}
 	case "wbreak":
 		r.q.clientBreakWrites()
 	case "bkill":
@@ -581,7 +602,7 @@ func (nopStats) HandleRPC(context.Context, stats.RPCStats)                      
 func (nopStats) TagConn(ctx context.Context, _ *stats.ConnTagInfo) context.Context { return ctx }
 func (nopStats) HandleConn(context.Context, stats.ConnStats)                       {}
 
-func muxOptions(sc *MuxScenario) []larking.MuxOption {
+func muxOptions(sc *MuxScenario, world *World) []larking.MuxOption {
 	k := &sc.Knobs
 	var rules []*annotations.HttpRule
 	if !sc.NoDefaultRules {
@@ -600,14 +621,31 @@ func muxOptions(sc *MuxScenario) []larking.MuxOption {
 	if k.Stats {
 		opts = append(opts, larking.StatsOption(nopStats{}))
 	}
+	// The interceptors are scheduling points: one before the handler is
+	// called and one after it returned (e.g. between the moment a proxied
+	// unary reply was decoded and the moment it is encoded for the client).
+	yield := func(ctx context.Context, label string) {
+		if world == nil {
+			return
+		}
+		if rs := world.lookup(ctx); rs != nil {
+			rs.hSlot.Yield(label, core.Always, 0)
+		}
+	}
 	if k.UnaryInt {
 		opts = append(opts, larking.UnaryServerInterceptorOption(func(ctx context.Context, req any, info *grpc.UnaryServerInfo, h grpc.UnaryHandler) (any, error) {
-			return h(ctx, req)
+			yield(ctx, "int.before")
+			resp, err := h(ctx, req)
+			yield(ctx, "int.after")
+			return resp, err
 		}))
 	}
 	if k.StreamInt {
 		opts = append(opts, larking.StreamServerInterceptorOption(func(srv any, ss grpc.ServerStream, info *grpc.StreamServerInfo, h grpc.StreamHandler) error {
-			return h(srv, ss)
+			yield(ss.Context(), "int.before")
+			err := h(srv, ss)
+			yield(ss.Context(), "int.after")
+			return err
 		}))
 	}
 	return opts
@@ -677,14 +715,14 @@ func runMuxScenario(t *testing.T, sc *MuxScenario, tape *core.Tape) *muxRun {
 		defer func() {
 			larking.VerifYield, larking.VerifLockGate, larking.VerifLocked, larking.VerifUnlocked = nil, nil, nil, nil
 		}()
-		mux, err := larking.NewMux(muxOptions(sc)...)
+		world := &World{sim: sim, reqs: map[int]*reqState{}, tag: "local"}
+		mr.world = world
+		mux, err := larking.NewMux(muxOptions(sc, world)...)
 		if err != nil {
 			mr.setupErr = err
 			return
 		}
 		mr.mux = mux
-		world := &World{sim: sim, reqs: map[int]*reqState{}, tag: "local"}
-		mr.world = world
 		local := localServices
 		if sc.Local != nil {
 			local = nil
@@ -714,7 +752,7 @@ func runMuxScenario(t *testing.T, sc *MuxScenario, tape *core.Tape) *muxRun {
 				w = 2
 			}
 			name := "r" + strconv.Itoa(sp.ID)
-			rs := &reqState{spec: sp, method: methods[sp.Method], sim: sim, mr: mr, abortedAt: -1}
+			rs := &reqState{spec: sp, method: methods[sp.Method], sim: sim, mr: mr, abortedAt: -1, ioBrokenAt: -1, ctxCancelAt: -1}
 			if sp.Raw != nil {
 				rs.method = rawMethodInfo(sp.Raw)
 			}
